@@ -542,8 +542,15 @@ def scen_clone(g, n):
                 L.append('insert %s %s %d' % (a, hx(g.render(it)), data)); data += 1
             elif k < 0.9:
                 L.append('delete %s %s' % (a, hx(g.render(it))))
+            elif k < 0.97:
+                if r.random() < 0.35:
+                    # clone over an existing router (the old one is dropped), possibly over itself
+                    b = r.choice(rids); L.append('clone %s %s' % (a, b))
+                else:
+                    b = str(len(rids)); L.append('clone %s %s' % (a, b)); rids.append(b)
             else:
-                b = str(len(rids)); L.append('clone %s %s' % (a, b)); rids.append(b)
+                # a router of the family is replaced by an empty one (its shared data is dropped)
+                L.append('new %s' % a)
             for x in rids:
                 L.append('dumpof ' + x)
             for p in paths[:6]:
